@@ -26,6 +26,10 @@ RELEVANT = {
 }
 
 
+BATCH = 1
+OUTFILE = "mutation_sweep.jsonl"
+
+
 def non_test_lines(text):
     """indices of lines before the `#[cfg(test)]` module"""
     lines = text.split("\n")
@@ -54,6 +58,27 @@ OPS = [
     ("option", r"Some\(([^()]+)\)", "None"),
 ]
 
+# second batch (run with --batch 2): string literals, iterator ends, format enum, key constants
+OPS2 = [
+    ("str", r'"([A-Za-z_+\-\.~$ ]{1,12})"', None),          # literal -> literal + "x"
+    ("iter", r"\.next_back\(\)", ".next()"), ("iter", r"\.next\(\)", ".next_back()"),
+    ("iter", r"\.first\(\)", ".last()"), ("iter", r"\.last\(\)", ".first()"),
+    ("enum", r"SDJWTSerializationFormat::Compact", "SDJWTSerializationFormat::JSON"),
+    ("enum", r"SDJWTSerializationFormat::JSON", "SDJWTSerializationFormat::Compact"),
+    ("key", r"SD_DIGESTS_KEY", "SD_LIST_PREFIX"), ("key", r"SD_LIST_PREFIX", "SD_DIGESTS_KEY"),
+    ("key", r"CNF_KEY", "JWK_KEY"), ("key", r"KB_DIGEST_KEY", "SD_DIGESTS_KEY"),
+    ("key", r"COMBINED_SERIALIZATION_FORMAT_SEPARATOR", "JWT_SEPARATOR"),
+    ("index", r"disclosure\[1\]", "disclosure[0]"), ("index", r"disclosure\[2\]", "disclosure[1]"), ("index", r"jwt\[0\]", "jwt[1]"), ("index", r"jwt\[2\]", "jwt[1]"),
+    ("clone", r"\.clone\(\)\?", ".clone()?"),
+    ("method", r"\.and_then\(Value::as_array\)", ".and_then(|_| None::<&Vec<Value>>)"),
+    ("method", r"\.and_then\(Value::as_object\)", ".and_then(|_| None::<&Map<String, Value>>)"),
+    ("method", r"as_bytes\(\)", "as_bytes().split_at(0).1"),
+    ("method", r"\.zip\(sd_jwt_claims\)", ".zip(sd_jwt_claims.iter().skip(0))"),
+    ("method", r"\.shift_remove_entry\(key\)", ".shift_remove_entry(key).filter(|_| key != \"iat\")"),
+    ("method", r"trim_start_matches", "trim_end_matches"),
+    ("method", r"\.strip_prefix\(", ".strip_suffix("),
+]
+
 
 def gen_mutants(fname, text):
     lines, end = non_test_lines(text)
@@ -63,18 +88,23 @@ def gen_mutants(fname, text):
         s = l.strip()
         if not s or s.startswith("//") or s.startswith("#[") or s.startswith("use ") or s.startswith("pub use") or "///" in l:
             continue
-        for kind, pat, rep in OPS:
-            if "X.contains_key" in rep:
+        for kind, pat, rep in (OPS2 if BATCH == 2 else OPS):
+            if rep is not None and "X.contains_key" in rep:
+                continue
+            if kind == "str" and ("Error" in l or "format!" in l or "msg" in l or "debug!" in l or "expect(" in l or "unimplemented" in l):
                 continue
             for m in re.finditer(pat, l):
-                new = l[: m.start()] + (rep if kind != "option" else "None") + l[m.end():]
+                if kind == "str":
+                    new = l[: m.start()] + '"' + m.group(1) + 'x"' + l[m.end():]
+                else:
+                    new = l[: m.start()] + (rep if kind != "option" else "None") + l[m.end():]
                 if new == l:
                     continue
                 out.append((fname, i, kind, l, new))
         # statement deletion: a line that is a plain call statement or continue / return Err
-        if re.match(r"^\s*(self\.[a-z_]+\(.*\);|[a-z_\.]+\.(sort|push|insert|append|extend|clear|remove)\(.*\);|continue;)\s*$", l):
+        if BATCH == 1 and re.match(r"^\s*(self\.[a-z_]+\(.*\);|[a-z_\.]+\.(sort|push|insert|append|extend|clear|remove)\(.*\);|continue;)\s*$", l):
             out.append((fname, i, "delete", l, re.match(r"^\s*", l).group(0) + "{}"))
-        if re.match(r"^\s*return Err\(.*\);\s*$", l):
+        if BATCH == 1 and re.match(r"^\s*return Err\(.*\);\s*$", l):
             out.append((fname, i, "delete-return-err", l, re.match(r"^\s*", l).group(0) + "{}"))
     return out
 
@@ -128,7 +158,7 @@ def worker(j, q, results, lock):
                 rec["caught_by"] = caught
         with lock:
             results.append(rec)
-            with open(f"{ROOT}/work/mutation_sweep.jsonl", "a") as f:
+            with open(f"{ROOT}/work/{OUTFILE}", "a") as f:
                 f.write(json.dumps(rec) + "\n")
             if rec["status"] == "survives-suite":
                 print(f"[{mid}] {fname}:{lineno+1} {kind}: {old.strip()[:70]} -> {new.strip()[:70]} => {rec.get('caught_by')}", flush=True)
@@ -146,6 +176,10 @@ def main():
             files = args.pop(0).split(",")
         elif a == "--limit":
             limit = int(args.pop(0))
+        elif a == "--batch":
+            global BATCH, OUTFILE
+            BATCH = int(args.pop(0))
+            OUTFILE = f"mutation_sweep_batch{BATCH}.jsonl"
         elif a == "--shard":
             i, n = args.pop(0).split("/")
             shard = (int(i), int(n))
